@@ -442,10 +442,7 @@ def mem2_newton_solver(
         jacobian = mem2_jacobian(
             current_iterate, twiddle_factors, direction_increment, jacobian
         )
-        try:
-            update_iterate = solve_cholesky(jacobian, -current_func)
-        except Exception:
-            update_iterate = np.linalg.lstsq(jacobian, -current_func, rcond=rcond)[0]
+        update_iterate = newton_update(jacobian, current_func, rcond)
 
         magnitude_current_iterate = np.linalg.norm(current_iterate)
         magnitude_update = np.linalg.norm(update_iterate)
@@ -499,6 +496,22 @@ def mem2_newton_solver(
 
 # mem2 functions
 # ----------------------
+
+
+@numba.njit(cache=True)
+def newton_update(jacobian, current_func, rcond):
+    """
+    Solve jacobian @ delta = - current_func. We use a Cholesky decomposition and fall
+    back to a least-squares solution if the jacobian is not positive definite.
+
+    NOTE: this lives in its own (loop free) function on purpose. In compiled code an
+    exception raised by a jitted callee is not caught by a try/except that sits inside
+    a loop (it escapes to the caller instead), whereas it is caught here.
+    """
+    try:
+        return solve_cholesky(jacobian, -current_func)
+    except Exception:
+        return np.linalg.lstsq(jacobian, -current_func, rcond=rcond)[0]
 
 
 @numba.njit(cache=True, fastmath=_FASTMATH)
